@@ -47,6 +47,17 @@ fn g_entities(rng: &mut Rng, n: usize) -> Vec<Case> {
             out.push(case(true, format!("{}<a>&el;</a>", dtd)));
         }
     }
+    // loops whose body holds an element with an attribute that needs normalisation, or a reference in
+    // an attribute of an element inside an entity (the depth bookkeeping of text and attribute
+    // expansion is shared)
+    for body in [
+        "<b x=\"&#32;\"/>&a;", "<b x=\"a&#9;b\"/>t&a;", "<b x=\"&z;\"/>&a;", "<b x=\"&#32;\">&a;</b>", "<b x=\"p\tq\"/><c y=\"&z;&z;\"/>&a;",
+        "&z;<b x=\"&#10;\"/>&a;", "<b x=\"&amp;\"/>&c;",
+    ] {
+        let dtd = format!("<!DOCTYPE r [<!ENTITY z ''><!ENTITY a '{}'><!ENTITY c '&a;'>]>", body);
+        out.push(case(true, format!("{}<r>&a;</r>", dtd)));
+        out.push(case(true, format!("{}<r k='&z;'>&c;</r>", dtd)));
+    }
     // chains of length d (accepted up to 10) and fan-out f at depth d
     for d in 1..=12usize {
         for f in [1usize, 2, 3, 15, 16, 17, 254, 255, 256, 300] {
@@ -223,6 +234,84 @@ fn g_dtdjunk(rng: &mut Rng, n: usize) -> Vec<Case> {
     out
 }
 
+/// Lexical edges of references, names, prefixes, DOCTYPE spelling, PIs and CDATA: each line is one
+/// construct a lexer is likely to get wrong in exactly one way (leading zeros of character
+/// references, upper-case hex marker, colons next to non-ASCII characters, letter case of the reserved
+/// prefix and of the DOCTYPE keyword, names beginning with a colon, control characters after a line
+/// break inside a value, documents made of Misc only, empty CDATA between markup).
+fn g_lexedge(_rng: &mut Rng, _n: usize) -> Vec<Case> {
+    let mut out = Vec::new();
+    let refs = [
+        "&#x41;", "&#X41;", "&#x000000041;", "&#x0000000000000041;", "&#0000000065;", "&#00000000000065;", "&#65;", "&#x1F600;",
+        "&#x00000000000000001F600;", "&#xD800;", "&#x110000;", "&#x0;", "&#00;", "&#4294967295;", "&#4294967296;", "&#x100000000;",
+        "&#x00000000100000000;", "&#x;", "&#;", "&#xg;", "&#x 41;", "&# 65;", "&#+65;", "&#x-41;", "&#0x41;", "&#65", "&#x41", "&lt;", "&LT;",
+        "&Lt;", "&amp;", "&apos;", "&quot;", "&gt;", "&gt", "&;", "& ;", "&a b;",
+    ];
+    for r in refs {
+        out.push(case(false, format!("<a>{}</a>", r)));
+        out.push(case(false, format!("<a>x{}y</a>", r)));
+        out.push(case(false, format!("<a b='{}'/>", r)));
+        out.push(case(false, format!("<a b=\"p{}q\" c='{}'>{}</a>", r, r, r)));
+        out.push(case(true, format!("<!DOCTYPE a [<!ENTITY e '{}'>]><a b='&e;'>&e;</a>", r)));
+    }
+    let names = [
+        "\u{e9}:a", "p:\u{e9}:a", "\u{e9}:\u{e9}", "a\u{e9}:b", "a:\u{e9}b", "\u{4e2d}:\u{6587}", "XML:a", "Xml:a", "xmL:a", "xml:a", "XMLNS:a",
+        "Xmlns:a", ":a", ":\u{e9}t\u{e9}", "a:", "::a", "a::b", "a:b:c", "\u{e9}", "a.b-c_d", "_a", "-a", ".a", "1a", "a\u{b7}", "\u{b7}a",
+    ];
+    let decls = ["", " xmlns:\u{e9}='urn:e'", " xmlns:p='urn:p' xmlns:a='urn:a' xmlns:\u{4e2d}='urn:z' xmlns:a\u{e9}='urn:ae'", " xmlns:XML='urn:upper' xmlns:Xml='urn:mixed'"];
+    for nm in names {
+        for d in decls {
+            out.push(case(false, format!("<{}{}/>", nm, d)));
+            out.push(case(false, format!("<r{} {}='v'/>", d, nm)));
+            out.push(case(false, format!("<r{}><{}></{}></r>", d, nm, nm)));
+            out.push(case(false, format!("<r{} {}='1' xml:lang='en' {}x='2'/>", d, nm, nm)));
+        }
+        out.push(case(false, format!("<?{} v?><r/>", nm)));
+        out.push(case(true, format!("<!DOCTYPE r [<!ENTITY {} 'v'>]><r>&{};</r>", nm, nm)));
+    }
+    for kw in ["<!DOCTYPE", "<!doctype", "<!Doctype", "<!DOCTYPe", "<!docType", "<! DOCTYPE", "<!DOCTYPE\t", "<!DOCTYPE\n"] {
+        for dtd in [false, true] {
+            out.push(case(dtd, format!("{} a><a/>", kw)));
+            out.push(case(dtd, format!("{} a [<!ENTITY e 'v'>]><a>&e;</a>", kw)));
+            out.push(case(dtd, format!("<!--c-->{} a><a/>", kw)));
+            out.push(case(dtd, format!("<?p?> {} a [<!ENTITY e 'vvvvvvvvvvvvvvvvvvvv'>]><a b='&e;&e;'>&e;&e;</a>", kw)));
+        }
+    }
+    for v in ["x\n\u{1}", "x\n\n\n\n\n\u{1}", "\n\u{b}", "ab\ncd\u{fffe}", "x\r\n\u{c}", "\u{e9}\n\u{1}", "\n\n<", "a\nb&c"] {
+        out.push(case(false, format!("<a b=\"{}\"/>", v)));
+        out.push(case(false, format!("<a\n b='1'\n c=\"{}\"/>", v)));
+        out.push(case(false, format!("<a>{}</a>", v)));
+        out.push(case(false, format!("<a><!--{}--></a>", v)));
+        out.push(case(false, format!("<a><?p {}?></a>", v)));
+        out.push(case(false, format!("<a><![CDATA[{}]]></a>", v)));
+    }
+    for d in [
+        "<?pi?>", "<!--c--><?pi?>", "<?xml version='1.0'?><?xml-stylesheet href='a'?>", "<?pi?><!--c-->", "<!--c-->", "<?a?><?b?>", " <?pi?> ", "\u{feff}<?pi?>",
+        "<r><![CDATA[]]></r>", "<r><a/><![CDATA[]]></r>", "<r><![CDATA[]]><a/></r>", "<r><a/><![CDATA[]]><b/></r>", "<r><![CDATA[]]><![CDATA[]]></r>",
+        "<r><!--c--><![CDATA[]]><?p?></r>", "<r>x<![CDATA[]]></r>", "<r><![CDATA[]]>x</r>",
+    ] {
+        out.push(case(false, d.to_string()));
+        out.push(case(true, format!("<!DOCTYPE r [<?pi?>]>{}", d)));
+    }
+    out
+}
+
+/// Elements with many attributes (the duplicate check and the attribute table at sizes where an
+/// implementation may switch strategy), with and without duplicates by expanded name (C05, C19).
+fn g_manyattrs(_rng: &mut Rng, _n: usize) -> Vec<Case> {
+    let mut out = Vec::new();
+    for k in [8usize, 16, 31, 32, 33, 34, 64, 65, 100, 255, 256, 257] {
+        let plain: String = (0..k).map(|i| format!(" a{}='{}'", i, i)).collect();
+        out.push(case(false, format!("<r{}/>", plain)));
+        out.push(case(false, format!("<r{} a0='dup'/>", plain)));
+        out.push(case(false, format!("<r xmlns:n1='http://u' xmlns:n2='http://u'{} n1:a='1' n2:a='2'/>", plain)));
+        out.push(case(false, format!("<r xmlns:n1='http://u' xmlns:n2='http://v'{} n1:a='1' n2:a='2'/>", plain)));
+        out.push(case(false, format!("<r xmlns:n1='http://u' xmlns:n2='http://u' n1:a='1'{} n2:a='2'/>", plain)));
+        out.push(case(false, format!("<r xmlns:n1='http://u' xmlns:n2='http://u' n1:a='1'{} n2:b='2' a{}='x'/>", plain, k - 1)));
+    }
+    out
+}
+
 /// Ignored declarations of the internal subset (ELEMENT / ATTLIST / NOTATION, external and
 /// parameter entities) whose literals contain quotes, `>`-free junk and the other quote character,
 /// followed by comments and PIs that must become children of the root node (C03).
@@ -350,6 +439,8 @@ pub fn gen(name: &str, rng: &mut Rng, n: usize, _args: &[String]) -> Vec<Case> {
         "exotic" => g_exotic(rng, n),
         "dtdjunk" => g_dtdjunk(rng, n),
         "dtdlit" => g_dtdlit(rng, n),
+        "lexedge" => g_lexedge(rng, n),
+        "manyattrs" => g_manyattrs(rng, n),
         "cdatalines" => g_cdatalines(rng, n),
         "entnames" => g_entnames(rng, n),
         "longattr" => g_longattr(rng, n),
@@ -994,7 +1085,26 @@ fn cmd_hoist(seed: u64) {
         let r = guarded(|| {
             let a = Document::parse_with_options(&t, opts(true, limit));
             let b = Document::parse_with_options(&hoisted, opts(true, limit));
-            (result_str(&a), result_str(&b))
+            let (ra, mut rb) = (result_str(&a), result_str(&b));
+            // identical trees also means: corresponding objects compare equal with `==`
+            if let (Ok(da), Ok(db)) = (&a, &b) {
+                if ra == rb {
+                    for (x, y) in da.descendants().zip(db.descendants()) {
+                        let attrs_eq = x.attributes().len() == y.attributes().len() && x.attributes().zip(y.attributes()).all(|(p, q)| p == q && q == p);
+                        let ns_eq = x.namespaces().len() == y.namespaces().len() && x.namespaces().zip(y.namespaces()).all(|(p, q)| p == q);
+                        let st_eq = match (x.text_storage(), y.text_storage()) {
+                            (Some(p), Some(q)) => p == q && **p == **q,
+                            (None, None) => true,
+                            _ => false,
+                        };
+                        if !(attrs_eq && ns_eq && st_eq && x.tag_name() == y.tag_name()) {
+                            rb.push_str(&format!("\nobjects of node {} do not compare equal with == (attributes {}, namespaces {}, text storage {})", x.id().get(), attrs_eq, ns_eq, st_eq));
+                            break;
+                        }
+                    }
+                }
+            }
+            (ra, rb)
         });
         match r {
             Some((a, b)) if a == b => verdict(&mut out, &id, true, "", &[]),
@@ -1017,6 +1127,175 @@ fn cmd_hoist(seed: u64) {
 
 #[cfg(not(feature = "rox-positions"))]
 fn cmd_hoist(_seed: u64) {}
+
+/// C18 through the public API: every `&'input str` the API hands out lies inside `input_text()`
+/// (the documented exception: the prefix `xml` of the implicit binding), and `input_text()` is the
+/// string that was passed in.
+fn cmd_apiborrow() {
+    let stdout = std::io::stdout();
+    let mut out = std::io::BufWriter::new(stdout.lock());
+    for (id, dtd, limit, t) in read_cases() {
+        let r = guarded(|| {
+            let Ok(doc) = Document::parse_with_options(&t, opts(dtd, limit)) else { return Vec::new() };
+            let mut fails: Vec<String> = Vec::new();
+            let inp = doc.input_text();
+            if inp.as_ptr() != t.as_ptr() || inp.len() != t.len() {
+                fails.push("input_text() is not the string passed to parse".into());
+            }
+            let (lo, hi) = (inp.as_ptr() as usize, inp.as_ptr() as usize + inp.len());
+            let inside = |s: &str| s.is_empty() || (s.as_ptr() as usize >= lo && s.as_ptr() as usize + s.len() <= hi);
+            let mut uris: Vec<String> = vec![
+                "http://www.w3.org/XML/1998/namespace".into(),
+                "http://www.w3.org/2000/xmlns/".into(),
+                String::new(),
+                "urn:absent".into(),
+            ];
+            for n in doc.descendants() {
+                for ns in n.namespaces() {
+                    if !uris.iter().any(|u| u == ns.uri()) {
+                        uris.push(ns.uri().to_string());
+                    }
+                }
+            }
+            for n in doc.descendants() {
+                let mut chk = |what: &str, s: &str| {
+                    if !inside(s) && fails.len() < 3 {
+                        fails.push(format!("{} of node {} ({:?}) is not a piece of the input", what, n.id().get(), s));
+                    }
+                };
+                if n.is_element() {
+                    chk("tag_name().name()", n.tag_name().name());
+                    for a in n.attributes() {
+                        chk("attribute name", a.name());
+                        if let roxmltree::StringStorage::Borrowed(b) = a.value_storage() {
+                            chk("borrowed attribute value", b);
+                        }
+                    }
+                    for ns in n.namespaces() {
+                        if let Some(p) = ns.name() {
+                            chk("namespace prefix", p);
+                        }
+                    }
+                    for u in &uris {
+                        if let Some(p) = n.lookup_prefix(u) {
+                            if p != "xml" {
+                                chk("lookup_prefix result", p);
+                            } else if u != "http://www.w3.org/XML/1998/namespace" {
+                                chk("lookup_prefix result", p);
+                            }
+                        }
+                    }
+                }
+                if let Some(pi) = n.pi() {
+                    chk("PI target", pi.target);
+                    if let Some(v) = pi.value {
+                        chk("PI value", v);
+                    }
+                }
+                if n.is_comment() {
+                    if let Some(c) = n.text() {
+                        chk("comment text", c);
+                    }
+                }
+                if let Some(roxmltree::StringStorage::Borrowed(b)) = n.text_storage() {
+                    chk("borrowed text", b);
+                }
+            }
+            fails
+        });
+        match r {
+            Some(f) if f.is_empty() => verdict(&mut out, &id, true, "", &[]),
+            Some(f) => verdict(&mut out, &id, false, &f.join("; "), &[&t]),
+            None => verdict(&mut out, &id, false, "panic", &[&t]),
+        }
+    }
+}
+
+/// C10: comparing attributes (and nodes, namespaces) of DIFFERENT documents never panics, in either
+/// direction.
+fn cmd_crossattr() {
+    let cases = read_cases();
+    let stdout = std::io::stdout();
+    let mut out = std::io::BufWriter::new(stdout.lock());
+    let mut extra: Vec<(String, bool, u32, String)> = vec![
+        ("x-plain".into(), false, u32::MAX, "<e a='1' b='2'/>".into()),
+        ("x-ns".into(), false, u32::MAX, "<e xmlns:p='urn:p' xmlns:q='urn:q' xmlns:r='urn:r' q:a='1' r:b='2' p:a='1' a='1'/>".into()),
+        ("x-xml".into(), false, u32::MAX, "<e xml:lang='1' xmlns='d'><f a='1'/></e>".into()),
+    ];
+    extra.extend(cases.into_iter().take(300));
+    let docs: Vec<(String, String, Document)> = extra
+        .iter()
+        .filter_map(|(id, dtd, limit, t)| Document::parse_with_options(t, opts(*dtd, *limit)).ok().map(|d| (id.clone(), t.clone(), d)))
+        .collect();
+    for i in 0..docs.len() {
+        for j in [0usize, 1, 2, (i + 1) % docs.len(), (i * 7 + 3) % docs.len()] {
+            if j >= docs.len() || i == j {
+                continue;
+            }
+            let (a, b) = (&docs[i].2, &docs[j].2);
+            let r = guarded(|| {
+                let mut acc = 0usize;
+                for x in a.descendants().filter(|n| n.is_element()).take(6) {
+                    for y in b.descendants().filter(|n| n.is_element()).take(6) {
+                        acc += (x == y) as usize + (x.tag_name() == y.tag_name()) as usize;
+                        for p in x.attributes() {
+                            for q in y.attributes() {
+                                acc += (p == q) as usize + (q == p) as usize + (p != q) as usize;
+                            }
+                        }
+                        for p in x.namespaces() {
+                            for q in y.namespaces() {
+                                acc += (p == q) as usize;
+                            }
+                        }
+                    }
+                }
+                acc
+            });
+            if r.is_none() {
+                verdict(&mut out, &docs[i].0, false, "panic while comparing objects of two documents with ==", &[&docs[i].1, &docs[j].1]);
+            }
+        }
+        verdict(&mut out, &docs[i].0, true, "", &[]);
+    }
+}
+
+/// C16 through the public API: summing, per element, its attribute values, its `text()` and its
+/// `tail()` (every text node is the text of its parent or the tail of its previous sibling, never
+/// both) never exceeds the input length under the default options.
+fn cmd_lxmlsum() {
+    let stdout = std::io::stdout();
+    let mut out = std::io::BufWriter::new(stdout.lock());
+    for (id, _dtd, limit, t) in read_cases() {
+        let r = guarded(|| {
+            let Ok(doc) = Document::parse_with_options(&t, opts(false, limit)) else { return None };
+            let mut sum = 0usize;
+            let mut direct = 0usize;
+            for n in doc.descendants() {
+                if n.is_element() {
+                    sum += n.attributes().map(|a| a.value().len()).sum::<usize>();
+                    sum += n.text().map(|s| s.len()).unwrap_or(0) + n.tail().map(|s| s.len()).unwrap_or(0);
+                    direct += n.attributes().map(|a| a.value().len()).sum::<usize>();
+                }
+                if n.is_text() {
+                    direct += n.text().map(|s| s.len()).unwrap_or(0);
+                }
+            }
+            Some((sum, direct))
+        });
+        match r {
+            Some(Some((sum, direct))) if sum > t.len() || direct > t.len() || sum > direct => verdict(
+                &mut out,
+                &id,
+                false,
+                &format!("content via text()/tail()/attribute values is {} bytes, the text nodes and attribute values hold {} bytes, the input has {}", sum, direct, t.len()),
+                &[&t],
+            ),
+            Some(_) => verdict(&mut out, &id, true, "", &[]),
+            None => verdict(&mut out, &id, false, "panic", &[&t]),
+        }
+    }
+}
 
 /// C19 (history part): repeated and interleaved parses in one process give the same results.
 fn cmd_repeat() {
@@ -1128,7 +1407,11 @@ fn cmd_threads(seed: u64) {
     assert_send_sync::<roxmltree::TextPos>();
     let stdout = std::io::stdout();
     let mut out = std::io::BufWriter::new(stdout.lock());
-    for (id, dtd, limit, t) in read_cases() {
+    let mut cases = read_cases();
+    // a document well beyond a few KiB with many lines (position caches, if any, become active)
+    let big: String = format!("<r>\n{}</r>", (0..1500).map(|i| format!("<e a='{}'>line {} \u{e9}</e>\n", i, i)).collect::<String>());
+    cases.insert(0, ("threads-big".to_string(), false, u32::MAX, big));
+    for (id, dtd, limit, t) in cases {
         let Ok(doc) = Document::parse_with_options(&t, opts(dtd, limit)) else { continue };
         let mut single = String::new();
         crate::dump::api_doc(&mut single, &doc);
@@ -1139,7 +1422,8 @@ fn cmd_threads(seed: u64) {
             o
         };
         let expect: Vec<String> = ids.iter().map(|i| per_node(*i)).collect();
-        let pos_expect: Vec<roxmltree::TextPos> = (0..=t.len() + 1).map(|p| doc.text_pos_at(p)).collect();
+        let stride = if t.len() > 20_000 { 7 } else { 1 };
+        let pos_expect: Vec<roxmltree::TextPos> = (0..=t.len() + 1).map(|p| doc.text_pos_at(p - p % stride)).collect();
         let bad = std::sync::atomic::AtomicUsize::new(0);
         std::thread::scope(|s| {
             for th in 0..16u64 {
@@ -1151,7 +1435,7 @@ fn cmd_threads(seed: u64) {
                 let root = doc.root();
                 s.spawn(move || {
                     let mut rng = Rng(seed ^ th.wrapping_mul(0x9E37));
-                    for _ in 0..(ids.len() * 2).max(4) {
+                    for _ in 0..(ids.len() * 2).max(4).min(400) {
                         let k = rng.below(ids.len());
                         let mut o = String::new();
                         crate::dump::api_node(&mut o, doc, doc.get_node(NodeId::new(ids[k])).unwrap());
@@ -1160,7 +1444,7 @@ fn cmd_threads(seed: u64) {
                         }
                         for _ in 0..40 {
                             let p = rng.below(pos_expect.len());
-                            if doc.text_pos_at(p) != pos_expect[p] {
+                            if doc.text_pos_at(p - p % stride) != pos_expect[p] {
                                 bad.fetch_add(1, std::sync::atomic::Ordering::Relaxed);
                             }
                         }
@@ -1369,6 +1653,9 @@ fn cmd_scale(args: &[String]) {
                     "longeq" => (format!("<r \u{e9}a{}={}'v' b='w'/>", " ".repeat(n), " ".repeat(n)), false),
                     // name length + '=' padding + 1 beyond 65535 although each is within its own field
                     "longname-edge" => (format!("<r {}{}={}'v' b='w'/>", "a".repeat(n), " ".repeat(100), " ".repeat(100)), false),
+                    // namespace tables with few distinct namespaces and very many in-scope entries
+                    "ns-nested" => (format!("{}{}", (0..n).map(|i| format!("<e xmlns:p{}='u{}'>", i, i % 7)).collect::<String>(), "</e>".repeat(n)), false),
+                    "ns-siblings-nested" => (format!("<r>{}<p xmlns:b='v'><c xmlns:d='w'><d xmlns:b='x'/></c></p></r>", "<s xmlns:a='u'/>".repeat(n)), false),
                     // text_pos_at with offsets far beyond the end: must return at once (clamped)
                     "tp-huge" => ("\u{feff}<r>\n\u{20ac}x\n</r>".to_string(), false),
                     _ => (String::new(), false),
@@ -1440,9 +1727,86 @@ fn cmd_scale(args: &[String]) {
 }
 
 /// C06: up to 2^16 distinct namespaces resolve correctly; one more is an error.
+/// C06 / C08 / C09: situations AT the namespace limit that are not about one more distinct namespace.
+fn cmd_nsscale_edge(n: usize, mode: &str) {
+    let (t, dtd): (String, bool) = match mode {
+        // the table is exactly full; later declarations only repeat known pairs and must resolve
+        "full-repeat" => {
+            let mut t = String::from("<r>");
+            for i in 0..n {
+                t.push_str(&format!("<e xmlns:p{}='urn:u{}'/>", i, i));
+            }
+            t.push_str("<p7:x xmlns:p7='urn:u7' p7:k='v'><p0:y xmlns:p0='urn:u0'><p7:z/></p0:y></p7:x></r>");
+            (t, false)
+        }
+        // few distinct namespaces, very many in-scope entries (each element re-declares the same one),
+        // then a new namespace
+        "many-entries" => {
+            let mut t = String::from("<r>");
+            for _ in 0..n {
+                t.push_str("<a xmlns:p='urn:p' p:k='v'/>");
+            }
+            t.push_str("<n:b xmlns:n='urn:new' n:k='v'/></r>");
+            (t, false)
+        }
+        // the same through entity references at nesting depth zero
+        "many-refs" => (
+            format!(
+                "<!DOCTYPE r [<!ENTITY e \"<a xmlns:p='urn:p' p:k='v'/>\"><!ENTITY f \"<n:b xmlns:n='urn:new' n:k='v'/>\">]><r>{}&f;</r>",
+                "&e;".repeat(n)
+            ),
+            true,
+        ),
+        // beyond the limit nothing may be accepted, in particular not a duplicate declaration or an
+        // undeclared prefix that a wrapped index would make look fine
+        "over-dup" => {
+            let mut t = String::from("<r>");
+            for i in 0..n {
+                t.push_str(&format!("<e xmlns:p{}='u{}'/>", i, i));
+            }
+            t.push_str("<e xmlns:q='q' xmlns:q='q2' p1:a=''/></r>");
+            (t, false)
+        }
+        _ => (String::new(), false),
+    };
+    let r = std::panic::catch_unwind(|| Document::parse_with_options(&t, opts(dtd, u32::MAX)));
+    match r {
+        Err(_) => println!("NSSCALE {} {} panic", n, mode),
+        Ok(Err(e)) => println!("NSSCALE {} {} err {:?}", n, mode, e),
+        Ok(Ok(doc)) => {
+            let last = doc.root_element().last_element_child().unwrap();
+            let mut bad = 0usize;
+            match mode {
+                "full-repeat" => {
+                    let y = last.first_element_child().unwrap();
+                    let z = y.first_element_child().unwrap();
+                    if last.tag_name().namespace() != Some("urn:u7") || y.tag_name().namespace() != Some("urn:u0") || z.tag_name().namespace() != Some("urn:u7")
+                        || last.attributes().next().and_then(|a| a.namespace()) != Some("urn:u7")
+                    {
+                        bad += 1;
+                    }
+                }
+                "many-entries" | "many-refs" => {
+                    if last.tag_name().namespace() != Some("urn:new") || last.attributes().next().and_then(|a| a.namespace()) != Some("urn:new")
+                        || doc.root_element().children().count() != n + 1
+                        || doc.root_element().first_element_child().and_then(|e| e.attributes().next().and_then(|a| a.namespace().map(|s| s.to_string()))) != Some("urn:p".to_string())
+                    {
+                        bad += 1;
+                    }
+                }
+                _ => {}
+            }
+            println!("NSSCALE {} {} ok bad={}", n, mode, bad);
+        }
+    }
+}
+
 fn cmd_nsscale(args: &[String]) {
     let n: usize = args[0].parse().unwrap();
     let mode = args.get(1).map(|s| s.as_str()).unwrap_or("default");
+    if ["full-repeat", "many-entries", "many-refs", "over-dup"].contains(&mode) {
+        return cmd_nsscale_edge(n, mode);
+    }
     let mut t = String::from("<r>");
     for i in 0..n {
         match mode {
@@ -1488,6 +1852,9 @@ pub fn command(name: &str, args: &[String]) {
         "shift" => cmd_shift(),
         "shapes" => cmd_shapes(),
         "illform" => cmd_illform(seed),
+        "apiborrow" => cmd_apiborrow(),
+        "crossattr" => cmd_crossattr(),
+        "lxmlsum" => cmd_lxmlsum(),
         "hoist" => cmd_hoist(seed),
         "repeat" => cmd_repeat(),
         "threads" => cmd_threads(seed),
